@@ -38,8 +38,9 @@ JB_KEY = b"jwt-bearer-shared-secret-0123456789abcdef"
 
 
 class World:
-    def __init__(self, model=None, transport="neutral"):
+    def __init__(self, model=None, transport="neutral", o1_provider="flask"):
         self.model = model
+        self.o1_provider = o1_provider      # "flask" (modelled) or "django" (django_oauth1; property oracles only)
         self.clock = Clock()
         self.real_time = time.time
         time.time = self.clock
@@ -111,7 +112,13 @@ class World:
             self._c12 = c12
             self._FAS = FAS
             self._real_gen = FAS.generate_token
-            self._o1 = c12.Provider(["HMAC-SHA1"], self.clock, op=lambda name: st.op(name), namegen=namegen)
+            if self.o1_provider == "django":
+                import authlib.integrations.django_oauth1.authorization_server as DAS
+                self._o1 = c12.DjangoProvider(["HMAC-SHA1"], self.clock, op=lambda name: st.op(name), namegen=namegen)
+                self._DAS, self._real_dgen = DAS, DAS.generate_token
+                DAS.generate_token = self._o1.verifier_gen
+            else:
+                self._o1 = c12.Provider(["HMAC-SHA1"], self.clock, op=lambda name: st.op(name), namegen=namegen)
             FAS.generate_token = self._o1.verifier_gen
         return self._o1
 
@@ -119,6 +126,9 @@ class World:
         time.time = self.real_time
         if self._o1 is not None:
             self._FAS.generate_token = self._real_gen
+            if self.o1_provider == "django":
+                self._DAS.generate_token = self._real_dgen
+                self._o1.restore()
 
     # ------------------------------------------------------------------
     def snapshot(self):
@@ -134,7 +144,7 @@ class World:
         if self._o1 is not None:
             d = self._o1.cache.d
             snap["temps"] = sorted([num(v[0]["oauth_token"]), v[0]["client_id"], num(v[0].get("oauth_verifier")), v[0].get("user_id")]
-                                   for k, v in d.items() if k.startswith("temporary_credential:"))
+                                   for k, v in d.items() if k.startswith(getattr(self._o1, "PREFIX", "temporary_credential:")))
             snap["nonces"] = sorted(k[len("nonce:"):] for k in d if k.startswith("nonce:"))
             snap["tok1"] = sorted([num(t.oauth_token), t.client_id, t.user_id] for t in self._o1.tokens)
         return snap
